@@ -163,6 +163,9 @@ def run_case(case):
         if rc != 0 or resp is None or "--generate-info" in args or not recs:
             return
         dest = args[-1]
+        if dest.startswith("file://"):
+            import urllib.parse
+            dest = urllib.parse.unquote(dest[len("file://"):])
         try:
             with open(os.path.join(dest, "info")) as fh:
                 scales = json.load(fh)["scales"]
@@ -304,10 +307,16 @@ def run_case(case):
         else:   # sharded step-by-step route (isotropic voxels -> cubic chunks)
             aff = np.diag([1., 1., 1., 1.])
             nibabel.save(nibabel.Nifti1Image(vol, aff, dtype=vol.dtype), fn)
+            # the destination is spelled as a file:// URL in half of the sequences
+            Burl = B
+            if case["vseed"] % 2:
+                import urllib.parse
+                Burl = "file://" + urllib.parse.quote(B)
+                obs["sharded_destinations_spelled_as_file_urls"] = 1
             run("volume_to_precomputed", "--generate-info", "--sharding", case["sharding"],
-                *scaling, fn, B, expect_ok=False)
-            run("generate_scales_info", *tyenc, os.path.join(B, "info_fullres.json"), B)
-            run("volume_to_precomputed", *scaling, fn, B)
+                *scaling, fn, Burl, expect_ok=False)
+            run("generate_scales_info", *tyenc, os.path.join(B, "info_fullres.json"), Burl)
+            run("volume_to_precomputed", *scaling, fn, Burl)
         if v:
             return {"violations": v[:3], "obs": obs}
         # completeness after the full-resolution step
